@@ -1119,7 +1119,17 @@ func TestVerifC06SanityForeign(t *testing.T) {
 					w.check("sanity foreign")
 				}
 				cm := w.sim.Get(sc.Claim.key())
-				if !strings.Contains(verifsim.ObjDigest(cm), "not bound to this claim") {
+				// The refusal must surface; the wording of the message is not part of the property, so only the
+				// structure is judged: the claim carries Synced=False.
+				surfaced := false
+				if l, ok := verifsim.Nested(cm, "status", "conditions").([]any); ok {
+					for _, e := range l {
+						if m, ok := e.(map[string]any); ok && m["type"] == "Synced" && m["status"] == "False" {
+							surfaced = true
+						}
+					}
+				}
+				if !surfaced {
 					t.Fatalf("%s %s/%s: refusal not surfaced on the claim: %s", sc.config(), pre, diff, verifsim.ObjDigest(cm))
 				}
 				w.apply(step{Kind: "delete"})
